@@ -264,7 +264,12 @@ pub fn c18(data: &[u8]) -> Option<c18::Case> {
     let a = seqs.pop()?;
     let sep = |u: &mut Unstructured| -> Option<Vec<String>> {
         let n = u.int_in_range(1..=3usize).ok()?;
-        (0..n).map(|_| pick(u, c18::SEPS).map(str::to_string)).collect()
+        (0..n)
+            .map(|_| {
+                let k: u8 = u.arbitrary().ok()?;
+                if k < 20 { pick(u, c18::SEPS_WIDE) } else { pick(u, c18::SEPS) }.map(str::to_string)
+            })
+            .collect()
     };
     Some(c18::Case { a, b, sep_a: sep(&mut u)?, sep_b: sep(&mut u)?, ignore_case: flags & 1 != 0 })
 }
@@ -468,7 +473,7 @@ pub fn c17(data: &[u8]) -> Option<c17::Case> {
         _ => Some(""),
     }
     .map(str::to_string);
-    Some(c17::Case { items, kind, special, ignore_special: flags & 1 != 0, task: (flags >> 1) % 4, mask_input: flags & 8 != 0, separator })
+    Some(c17::Case { items, kind, special, ignore_special: flags & 1 != 0, task: (flags >> 1) % 4, mask_input: flags & 8 != 0, separator, target_reversed: flags & 128 != 0 })
 }
 
 pub fn c15(data: &[u8]) -> Option<c15::Case> {
